@@ -226,30 +226,54 @@ fn ws_stream_with(bytes: &[u8], drip: bool) -> (humphrey_ws::WebsocketStream, Pe
     // read/write/fcntl are issued, which a stream socketpair supports identically.
     let ours = unsafe { std::net::TcpStream::from_raw_fd(fds[0]) };
     let mut peer = unsafe { std::os::unix::net::UnixStream::from_raw_fd(fds[1]) };
-    let keep = if drip {
-        let data = bytes.to_vec();
-        Peer::Feeder(std::thread::spawn(move || {
-            for b in data.iter() {
-                if peer.write_all(std::slice::from_ref(b)).is_err() {
-                    break;
-                }
-                std::thread::yield_now();
-            }
-            let _ = peer.shutdown(std::net::Shutdown::Write);
-            // keep the read side open (and drained) until the decoder has dropped its end
-            let mut sink = [0u8; 4096];
-            while let Ok(n) = peer.read(&mut sink) {
-                if n == 0 {
-                    break;
-                }
-            }
-        }))
-    } else {
-        // Inputs for this parser are at most 64 KiB + a few: they fit the socket buffer (208 KiB), and so do the
-        // decoder's replies (pong / close payloads, never longer than the input), so nobody has to drain.
+    // The decoder answers pings and closes on the same socket.  A peer that never reads would eventually block
+    // it (socket buffers are accounted per write, ~200 small replies fill them): that is TCP back-pressure, not a
+    // wedged parser.  So the peer is a client that reads while it writes, except for inputs too short to matter.
+    let keep = if !drip && bytes.len() <= 256 {
         let _ = peer.write_all(bytes);
         let _ = peer.shutdown(std::net::Shutdown::Write);
         Peer::Held(peer)
+    } else {
+        let data = bytes.to_vec();
+        let step = if drip { 1 } else { 16384 };
+        Peer::Feeder(std::thread::spawn(move || {
+            use std::os::unix::io::AsRawFd;
+            let fd = peer.as_raw_fd();
+            let _ = peer.set_nonblocking(true);
+            let mut pos = 0usize;
+            let mut open = true;
+            let mut sink = [0u8; 4096];
+            loop {
+                let mut pfd = libc::pollfd { fd, events: libc::POLLIN | if pos < data.len() { libc::POLLOUT } else { 0 }, revents: 0 };
+                let rc = unsafe { libc::poll(&mut pfd, 1, 1000) };
+                if rc < 0 {
+                    break;
+                }
+                if pfd.revents & (libc::POLLIN | libc::POLLHUP | libc::POLLERR) != 0 {
+                    match peer.read(&mut sink) {
+                        Ok(0) => break, // the decoder dropped its end
+                        Ok(_) => {}
+                        Err(e) if e.kind() == std::io::ErrorKind::WouldBlock => {}
+                        Err(_) => break,
+                    }
+                }
+                if pos < data.len() && pfd.revents & libc::POLLOUT != 0 {
+                    let end = (pos + step).min(data.len());
+                    match peer.write(&data[pos..end]) {
+                        Ok(n) => pos += n,
+                        Err(e) if e.kind() == std::io::ErrorKind::WouldBlock => {}
+                        Err(_) => pos = data.len(),
+                    }
+                    if drip {
+                        std::thread::yield_now();
+                    }
+                }
+                if pos >= data.len() && open {
+                    let _ = peer.shutdown(std::net::Shutdown::Write);
+                    open = false;
+                }
+            }
+        }))
     };
     (humphrey_ws::WebsocketStream::new(humphrey::stream::Stream::Tcp(ours)), keep)
 }
